@@ -78,16 +78,17 @@ class CKMdgGate(Gate, CachedClass):
         u2 = np.array([[c1, 0, s1 * m1], [0, 1, 0], [-s1 * p1, 0, c1]])
         u3 = np.array([[c2, s2, 0], [-s2, c2, 0], [0, 0, 1]])
 
-        u1p = np.array([[0, 0, 0], [0, -s3, c3], [0, -c3, -s3]])
-        u2p1 = np.array([
+        # every angle enters as -params[k] (and the phase as -params[3]): chain rule
+        u1p = -np.array([[0, 0, 0], [0, -s3, c3], [0, -c3, -s3]])
+        u2p1 = -np.array([
             [-s1, 0, c1 * m1], [0, 0, 0],
-            [-c1 * m1, 0, s1],
+            [-c1 * p1, 0, -s1],
         ])
-        u2p2 = np.array([
+        u2p2 = -np.array([
             [0, 0, -1j * s1 * m1], [0, 0, 0],
             [-1j * s1 * p1, 0, 0],
         ])
-        u3p = np.array([[s2, c2, 0], [-c2, -s2, 0], [0, 0, 0]])
+        u3p = -np.array([[-s2, c2, 0], [-c2, -s2, 0], [0, 0, 0]])
 
         return np.array(
             [
